@@ -34,7 +34,7 @@ REAL_PKGCONFIG = '/usr/bin/pkg-config'
 # concrete versions for the abstract versions 1 < 2 < 3 (seed selects one triple)
 VERSION_SETS = [('1.0', '2.0', '3.0'), ('0.9.1', '1.10', '1.10.1'), ('1.2.9', '1.2.10', '2'), ('2.0', '2.1', '10.0')]
 
-Cell = T.Dict[str, T.Any]   # {'id', 'cfg', 'as', 'abort': predicted aborting step or 0}
+Cell = T.Dict[str, T.Any]   # {'id', 'cfg', 'as', 'abort': predicted aborting step or 0, 'meth': 'auto' | 'pkgconfig'}
 
 
 class Rendering:
@@ -59,7 +59,7 @@ def subproject_name(k: int, cfg: T.Dict[str, T.Any]) -> str:
     return f'd{k}' if cfg['prov'] == 'same' else f's{k}'
 
 
-def render_lookup(k: int, cfg: T.Dict[str, T.Any], a: T.Dict[str, T.Any], rd: Rendering) -> str:
+def render_lookup(k: int, cfg: T.Dict[str, T.Any], a: T.Dict[str, T.Any], rd: Rendering, meth: str = 'auto') -> str:
     sub = subproject_name(k, cfg)
     args = [_q(f'd{k}')]
     v2 = rd.version(2)
@@ -76,6 +76,8 @@ def render_lookup(k: int, cfg: T.Dict[str, T.Any], a: T.Dict[str, T.Any], rd: Re
         args.append('required: true')
     if a['af'] != 'unset':
         args.append('allow_fallback: ' + a['af'])
+    if meth == 'pkgconfig':
+        args.append("method: 'pkg-config'")
     return 'x = dependency(' + ', '.join(args) + ')'
 
 
@@ -94,7 +96,7 @@ def render_cell_lines(k: int, cell: Cell, rd: Rendering) -> T.Tuple[T.List[str],
         lines.append(f"meson.override_dependency('d{k}', dependency('', required: false))")
     for j, a in enumerate(cell['as'], 1):
         steps[len(lines)] = j
-        lines.append(render_lookup(k, cfg, a, rd))
+        lines.append(render_lookup(k, cfg, a, rd, cell.get('meth', 'auto')))
         lines.append(f"message('C10RES {k} {j}', x.found(), x.found() ? x.type_name() : '-', "
                      "x.found() ? x.version() : '-', "
                      "x.found() ? x.get_variable(internal: 'origin', default_value: 'sys') : '-')")
